@@ -14,7 +14,7 @@ DefaultPort(sc) == IF sc \in {"http", "ws"} THEN 80 ELSE 443
 OtherDefault(sc) == IF sc \in {"http", "ws"} THEN 443 ELSE 80
 
 Shapes == [scheme : Schemes, upper : BOOLEAN, user : {"none", "user", "userpw"},
-           hostk : {"name", "mixed", "ipv4", "ipv6", "ipv6mixed"}, port : {"none", "default", "otherdefault", "custom"},
+           hostk : {"name", "mixed", "ipv4", "ipv6", "ipv6mixed"}, port : {"none", "default", "otherdefault", "custom", "zero"},
            path : {"empty", "root", "segs", "lastparam", "innerparam", "dots", "pct"},
            query : {"none", "empty", "plain", "semi", "qmark"}, frag : BOOLEAN, form : {"str", "bytes"}]
 
@@ -23,8 +23,9 @@ HostTok(s) == CASE s.hostk \in {"name", "mixed"} -> "example.com" [] s.hostk = "
                 [] s.hostk = "ipv6mixed" -> "2001:db8::a"      \* written [2001:DB8::A]: hex digits are case-insensitive too
                 [] OTHER -> "::1"
 IsV6(s) == s.hostk \in {"ipv6", "ipv6mixed"}
-Port(s) == CASE s.port = "none" -> 0 [] s.port = "default" -> DefaultPort(s.scheme)
-             [] s.port = "otherdefault" -> OtherDefault(s.scheme) [] OTHER -> 8080
+NoPort == -1                       \* "no port given" (port 0 is a port like any other: "http://h:0/")
+Port(s) == CASE s.port = "none" -> NoPort [] s.port = "default" -> DefaultPort(s.scheme)
+             [] s.port = "otherdefault" -> OtherDefault(s.scheme) [] s.port = "zero" -> 0 [] OTHER -> 8080
 
 (* the path as written - every segment with its parameters, no normalisation; empty -> "/" *)
 PathToks(s) ==
@@ -44,13 +45,13 @@ QueryToks(s) ==
 Expected(s) ==
   [scheme |-> s.scheme,                          \* lower-cased
    host   |-> HostTok(s),
-   port   |-> Port(s),                           \* 0 = None
+   port   |-> Port(s),                           \* NoPort = None
    target |-> PathToks(s) \o QueryToks(s),
    \* the origin fills in the scheme's default port
-   oport  |-> IF Port(s) = 0 THEN DefaultPort(s.scheme) ELSE Port(s),
+   oport  |-> IF Port(s) = NoPort THEN DefaultPort(s.scheme) ELSE Port(s),
    \* the synthesised Host header: IPv6 literals bracketed, the port iff it is not the default
    hosthdr |-> (IF IsV6(s) THEN <<"[", HostTok(s), "]">> ELSE <<HostTok(s)>>)
-               \o (IF Port(s) # 0 /\ Port(s) # DefaultPort(s.scheme) THEN <<":", Port(s)>> ELSE <<>>),
+               \o (IF Port(s) # NoPort /\ Port(s) # DefaultPort(s.scheme) THEN <<":", Port(s)>> ELSE <<>>),
    \* serialising parses back to an equal URL
    roundtrip |-> "equal"]
 
@@ -61,7 +62,7 @@ OriginOf(s) == <<Expected(s).scheme, Expected(s).host, Expected(s).oport>>
 OriginLaw(S) ==
   \A a, b \in S : (OriginOf(a) = OriginOf(b)) <=>
       (a.scheme = b.scheme /\ HostTok(a) = HostTok(b)
-       /\ (IF Port(a) = 0 THEN DefaultPort(a.scheme) ELSE Port(a)) = (IF Port(b) = 0 THEN DefaultPort(b.scheme) ELSE Port(b)))
+       /\ (IF Port(a) = NoPort THEN DefaultPort(a.scheme) ELSE Port(a)) = (IF Port(b) = NoPort THEN DefaultPort(b.scheme) ELSE Port(b)))
 ExplicitDefaultSharesOrigin(S) ==
   \A a, b \in S : (a.scheme = b.scheme /\ a.hostk = b.hostk /\ a.port = "none" /\ b.port = "default") => OriginOf(a) = OriginOf(b)
 TargetIgnoresFragUser(S) ==
@@ -69,5 +70,5 @@ TargetIgnoresFragUser(S) ==
                    = [b EXCEPT !.frag = FALSE, !.user = "none", !.form = "str", !.upper = FALSE])
                   => Expected(a) = Expected(b)
 HostHeaderPortIffNonDefault(S) ==
-  \A s \in S : (\E j \in DOMAIN Expected(s).hosthdr : Expected(s).hosthdr[j] = ":") <=> (Port(s) # 0 /\ Port(s) # DefaultPort(s.scheme))
+  \A s \in S : (\E j \in DOMAIN Expected(s).hosthdr : Expected(s).hosthdr[j] = ":") <=> (Port(s) # NoPort /\ Port(s) # DefaultPort(s.scheme))
 =============================================================================
